@@ -77,6 +77,16 @@ def generate(rng, tier, idx):
         kit = KITS["M-RP"]
         ops = gen_mf.rpms_canonical_history(rng)
         K = {"compose": ops[0]["compose"], "adds": [o for o in ops if o["op"] == "add"]}
+        if rng.random() < 0.35:
+            for o in ops:
+                if o["op"] == "add":
+                    o["op"] = "model_add"
+            ops.append({"op": "model_dump", "path": kit.path})
+            ops.append({"op": "rp_downgrade", "path": kit.path, "version": pick(rng, ["0.3", "0.3", "1.0", "1.1"]), "decorate": pick(rng, [None, None, "rpm", "dir"])})
+            ops.append({"op": "restart", "path": kit.path, "via": pick(rng, ["path", "handle", "loads"]), "offset": rng.randint(0, 500)})
+            ops.append(kit.dump_op(K, rng))
+            ops.append({"op": "restart", "path": kit.path, "via": "path"})
+            return {"machine": kit.machine, "cfg": kit.cfg(rng), "ops": ops}
         down = {"op": "rp_downgrade", "path": kit.path, "version": pick(rng, ["0.3", "0.3", "1.0", "1.1"]), "decorate": pick(rng, [None, None, "rpm", "dir"])}
     else:
         kit = KITS["M-TI"]
